@@ -26,9 +26,10 @@
 (*            (newer list, older list, list of another issuer, bad         *)
 (*            signature, failure), the package clock                       *)
 (* FineAdd = TRUE additionally splits addEndpoints into its check and its  *)
-(* Store (the code's check-then-act on the sync.Map; there is no seam in   *)
-(* the real code to stop a goroutine there, so these behaviours are        *)
-(* model-only).  AddIfAbsent = TRUE is the repair (LoadOrStore).           *)
+(* Store (the code's check-then-act on the sync.Map).  There is no seam in *)
+(* the real code to stop a goroutine there, so these behaviours are not    *)
+(* replayed step by step; the driver's stress probe (8 concurrent first    *)
+(* validations) hits the lost update on the real code.                     *)
 (*                                                                         *)
 (* Deviations of the code from the properties, as boolean constants        *)
 (* (TRUE = prescriptive design, FALSE = the code as it is):                *)
@@ -44,6 +45,9 @@
 (*   IssuerAlwaysChecked  the issuer of a certificate is looked up in the  *)
 (*                        trust store for every distribution point (code:  *)
 (*                        only when the endpoint is not known yet)         *)
+(*   AddIfAbsent          (with FineAdd) addEndpoints stores its empty list *)
+(*                        only if the endpoint still has no entry          *)
+(*                        (LoadOrStore; code: Load, then Store)            *)
 (***************************************************************************)
 EXTENDS Naturals, Sequences, FiniteSets, TLC
 
@@ -59,6 +63,7 @@ CONSTANTS
     Vias,               \* entry points: "check" (CheckCRL), "strict" (CheckCRLStrict), "tls" (VerifyPeerCertificate)
     MaxTime, MaxEnv, MaxVal, MaxRounds, CountRounds,
     KeepNewer, SoftfailChecksRest, IssuerAlwaysChecked, FineAdd, AddIfAbsent,
+    VerifyLists, RevokedFirst, CAFirst, DenyChecked, StrictIsHard, BypassExpired,   \* design decisions of the code (TRUE); FALSE only in vacuity guards
     Hist,
     IssuerOf(_),        \* certificate -> its issuer
     DPs(_),             \* certificate -> sequence of its CRL distribution points
@@ -90,12 +95,14 @@ NoEntry  == [iss |-> "-", obj |-> EmptyObj]
 NoDl     == [id |-> "none", kind |-> "none", ban |-> {}]
 
 Log(r) == IF Hist THEN Append(hist, r) ELSE hist
-CertAt(ch, i) == ch[Len(ch) + 1 - i]        \* chains are checked CA first
+CertAt(ch, i) == IF CAFirst THEN ch[Len(ch) + 1 - i] ELSE ch[i]        \* chains are checked CA first
 ToSet(q) == {q[j] : j \in 1..Len(q)}
-Good(o, iss) == o.kind = "good" /\ o.iss = iss            \* parses, issuer name as expected, signature verifies
+Good(o, iss) == (o.kind = "good" \/ (~VerifyLists /\ o.kind = "badsig")) /\ o.iss = iss   \* parses, issuer name as expected, signature verifies
+Genuine(o, iss) == o.kind = "good" /\ o.iss = iss          \* what the ghost variable best records
+GoodDl(o) == o.kind = "good" \/ (~VerifyLists /\ o.kind = "badsig")
 Newer(a, b) == IF a.kind = "good" /\ a.num >= b.num THEN a ELSE b
 StoreObj(cur, o) == IF KeepNewer /\ cur.kind = "good" /\ cur.num > o.num THEN cur ELSE o
-Mode(via) == IF via = "strict" THEN "hard" ELSE IF cfgsoft THEN "soft" ELSE "hard"
+Mode(via) == IF via = "strict" /\ StrictIsHard THEN "hard" ELSE IF cfgsoft THEN "soft" ELSE "hard"
 
 Idle == [pc |-> "idle", ch |-> <<>>, via |-> "-", m |-> "-", cn |-> FALSE, i |-> 0, k |-> 0, at |-> "-",
          gotc |-> EmptyObj, gotd |-> NoDl, res |-> "-", snap |-> [e \in Endpoints |-> EmptyObj], seen |-> {}, t0 |-> 0]
@@ -121,7 +128,7 @@ NextCert(ch, m, i, cr, d, bs, atomic) ==
 
 \* a soft-fail condition (denylist missing: k = 0; CRL missing / expired at distribution point k)
 AfterSoft(ch, m, i, k, cond, cr, d, bs, atomic) ==
-    IF m = "hard" THEN Stop("done", i, k, "-", cond, cr, bs)
+    IF m = "hard" \/ (cond = "crlexpired" /\ ~BypassExpired) THEN Stop("done", i, k, "-", cond, cr, bs)
     ELSE IF SoftfailChecksRest THEN Walk(ch, m, i, k + 1, "ep", cr, d, bs, atomic)
     ELSE NextCert(ch, m, i, cr, d, bs, atomic)
 
@@ -130,7 +137,7 @@ Walk(ch, m, i, k, ph, cr, d, bs, atomic) ==
     IF ph = "deny" THEN
         IF ~UseDenylist THEN Walk(ch, m, i, 1, "ep", cr, d, bs, atomic)
         ELSE IF d.kind = "none" THEN Stop("req", i, 0, "dl", "-", cr, bs)         \* ValidateCert: first download
-        ELSE IF c \in d.ban THEN Stop("done", i, 0, "-", "banned", cr, bs)
+        ELSE IF DenyChecked /\ c \in d.ban THEN Stop("done", i, 0, "-", "banned", cr, bs)
         ELSE Walk(ch, m, i, 1, "ep", cr, d, bs, atomic)
     ELSE IF k > Len(DPs(c)) THEN NextCert(ch, m, i, cr, d, bs, atomic)
     ELSE LET e == DPs(c)[k]
@@ -148,11 +155,12 @@ Walk(ch, m, i, k, ph, cr, d, bs, atomic) ==
                   ELSE LET o == srv[e]
                            ok == Good(o, cr1[e].iss)
                            cr2 == IF ok THEN [cr1 EXCEPT ![e].obj = StoreObj(@, o)] ELSE cr1
-                           bs2 == IF ok THEN [bs EXCEPT ![e] = Newer(@, o)] ELSE bs
+                           bs2 == IF Genuine(o, cr1[e].iss) THEN [bs EXCEPT ![e] = Newer(@, o)] ELSE bs
                        IN IF ok THEN Walk(ch, m, i, k, "ep", cr2, d, bs2, atomic)
                           ELSE AfterSoft(ch, m, i, k, "crlmissing", cr2, d, bs2, atomic)
-              ELSE IF c \in ob.rev THEN Stop("done", i, k, "-", "revoked", cr1, bs)   \* takes precedence over expiry
+              ELSE IF RevokedFirst /\ c \in ob.rev THEN Stop("done", i, k, "-", "revoked", cr1, bs)   \* takes precedence over expiry
               ELSE IF now >= ob.nxt THEN AfterSoft(ch, m, i, k, "crlexpired", cr1, d, bs, atomic)
+              ELSE IF c \in ob.rev THEN Stop("done", i, k, "-", "revoked", cr1, bs)
               ELSE Walk(ch, m, i, k + 1, "ep", cr1, d, bs, atomic)
 
 \* revalidatePeers: CheckCRL([leaf]) for every live connection, synchronously inside denylist.Update
@@ -223,7 +231,7 @@ VStoreCrl(t) ==
     LET v == val[t]  e == v.at  o == v.gotc
         ok == Good(o, crls[e].iss)
         cr1 == IF ok THEN [crls EXCEPT ![e].obj = StoreObj(@, o)] ELSE crls
-        bs1 == IF ok THEN [best EXCEPT ![e] = Newer(@, o)] ELSE best
+        bs1 == IF Genuine(o, crls[e].iss) THEN [best EXCEPT ![e] = Newer(@, o)] ELSE best
         w == IF ok THEN Walk(v.ch, v.m, v.i, v.k, "ep", cr1, dl, bs1, FALSE)
              ELSE AfterSoft(v.ch, v.m, v.i, v.k, "crlmissing", cr1, dl, bs1, FALSE)
     IN /\ v.pc = "resp" /\ v.at # "dl"
@@ -234,10 +242,10 @@ VStoreCrl(t) ==
 
 VStoreDl(t) ==
     LET v == val[t]  o == v.gotd  c == CertAt(v.ch, v.i)
-        ok == o.kind = "good"
+        ok == GoodDl(o)
         rv == IF ok THEN Reval(conns, {}, crls, o, best) ELSE [conns |-> conns, cr |-> crls, bs |-> best]
         d1 == IF ok THEN o ELSE dl
-        w == IF ok THEN (IF c \in d1.ban THEN Stop("done", v.i, 0, "-", "banned", rv.cr, rv.bs)
+        w == IF ok THEN (IF DenyChecked /\ c \in d1.ban THEN Stop("done", v.i, 0, "-", "banned", rv.cr, rv.bs)
                          ELSE Walk(v.ch, v.m, v.i, 1, "ep", rv.cr, d1, rv.bs, FALSE))
              ELSE AfterSoft(v.ch, v.m, v.i, 0, "dlmissing", crls, dl, best, FALSE)
     IN /\ v.pc = "resp" /\ v.at = "dl"
@@ -281,7 +289,7 @@ SyncStore(e) ==
         /\ p[1] = e
         /\ LET o == p[2]  ok == Good(o, crls[e].iss) IN
            /\ crls' = IF ok THEN [crls EXCEPT ![e].obj = StoreObj(@, o)] ELSE crls
-           /\ best' = IF ok THEN [best EXCEPT ![e] = Newer(@, o)] ELSE best
+           /\ best' = IF Genuine(o, crls[e].iss) THEN [best EXCEPT ![e] = Newer(@, o)] ELSE best
         /\ syn' = [syn EXCEPT !.got = @ \ {p}]
     /\ hist' = Log([a |-> "SyncStore", e |-> e])
     /\ UNCHANGED <<now, srv, dlsrv, dl, cfgsoft, val, conns, vcount, env, rounds>>
@@ -294,7 +302,7 @@ SyncDlFetch ==
 
 SyncDlStore ==
     /\ syn.run /\ syn.dlp = "resp"
-    /\ LET o == syn.gotd  ok == o.kind = "good"
+    /\ LET o == syn.gotd  ok == GoodDl(o)
            rv == IF ok THEN Reval(conns, {}, crls, o, best) ELSE [conns |-> conns, cr |-> crls, bs |-> best]
        IN /\ dl' = IF ok THEN o ELSE dl          \* a list that does not verify leaves the last good one in place
           /\ conns' = rv.conns /\ crls' = rv.cr /\ best' = rv.bs
@@ -354,13 +362,14 @@ ObjOK(o) == o.kind \in {"empty", "good", "badsig", "fail"}
 TypeOK ==
     /\ now \in 0..MaxTime
     /\ \A e \in Endpoints : srv[e] \in CrlCat(e) /\ ObjOK(crls[e].obj)
-    /\ dlsrv \in DlCat \cup {InitDl} /\ dl.kind \in {"none", "good"}
+    /\ dlsrv \in DlCat \cup {InitDl}
     /\ \A t \in Vals : /\ val[t].pc \in {"idle", "add", "req", "resp", "done"}
                        /\ val[t].pc = "done" => val[t].res \in Results
                        /\ val[t].pc \in {"req", "resp", "add"} => val[t].at \in Endpoints \cup {"dl"}
     /\ conns \subseteq Conns
 
 Done(t) == val[t].pc = "done"
+WantHard(t) == val[t].via = "strict" \/ ~cfgsoft          \* what the caller asked for
 Accepted(t) == Done(t) /\ val[t].res = "ok"
 ChainCerts(t) == ToSet(val[t].ch)
 
@@ -384,7 +393,7 @@ OnlyGoodStored ==
 
 \* P4: hard-fail accepts only with an unexpired good list for every distribution point and a loaded denylist
 HardfailSound ==
-    \A t \in Vals : (Accepted(t) /\ val[t].m = "hard") =>
+    \A t \in Vals : (Accepted(t) /\ WantHard(t)) =>
         /\ UseDenylist => dl.kind = "good"
         /\ \A c \in ChainCerts(t) : \A j \in 1..Len(DPs(c)) :
               LET e == DPs(c)[j] IN /\ IssuerOf(c) \in Trusted
@@ -399,7 +408,7 @@ Justified(t) ==
 SoftfailExact ==
     \A t \in Vals : Done(t) =>
         /\ Justified(t)
-        /\ val[t].m = "soft" => val[t].res \in {"ok", "revoked", "banned", "untrusted"}
+        /\ ~WantHard(t) => val[t].res \in {"ok", "revoked", "banned", "untrusted"}
 \* ... and bypasses nothing else: a chain with a certificate of an unknown issuer (that names a distribution point) is not accepted
 UnknownIssuerRejected ==
     \A t \in Vals : Accepted(t) => \A c \in ChainCerts(t) : (Len(DPs(c)) > 0 => IssuerOf(c) \in Trusted)
@@ -407,11 +416,10 @@ UnknownIssuerRejected ==
 \* P6: a chain is checked CA first and a revoked CA fails every leaf below it: a validation never gets past a certificate
 \*     that the lists known at its beginning revoke (so the verdict for a revoked CA is "revoked" even when the CRLs
 \*     further down can no longer be obtained)
+StopIdx(t) == IF CAFirst THEN Len(val[t].ch) + 1 - val[t].i ELSE val[t].i       \* index (leaf = 1) of the certificate the validation stopped at
+RevSnap(t, c) == \E j \in 1..Len(DPs(c)) : c \in val[t].snap[DPs(c)[j]].rev
 StopsAtRevoked ==
-    \A t \in Vals : Done(t) =>
-        \A i \in 1..Len(val[t].ch) :
-            LET c == CertAt(val[t].ch, i) IN
-            (\E j \in 1..Len(DPs(c)) : c \in val[t].snap[DPs(c)[j]].rev) => val[t].i <= i
+    \A t \in Vals : Done(t) => \A j \in (StopIdx(t) + 1)..Len(val[t].ch) : ~RevSnap(t, val[t].ch[j])
 
 \* P7 (liveness): a live connection whose certificate is banned by the loaded denylist is eventually closed, provided the
 \*     denylist URL keeps answering with a good list
